@@ -18,7 +18,7 @@ from common import Check, standard_proof_step, TRUSTED_COMMON
 from c10 import IMPORTS as IMPORTS0, coq_codes, corr_term, harness_problems, job_defs, job_replay_info, make_jobs, run_jobs
 
 IMPORTS = IMPORTS0 + "\nFrom XV Require Import Proofs.ParserDoc."
-EXTRAS_C15 = ["required", "wildtail", "anytype", "noinitwild", "fixed", "textattr", "union"]
+EXTRAS_C15 = ["wrappers", "required", "wildtail", "anytype", "noinitwild", "fixed", "textattr", "union"]
 DOCUMENTED = ("ParserError", "ConverterError", "XmlContextError", "XmlHandlerError")
 
 SITE_CLASS = {
